@@ -1,0 +1,31 @@
+//! Verification hooks (cargo feature `verif`, off by default).
+//!
+//! Add-only re-exports of the private core so that an external harness can
+//! drive a directly constructed instance deterministically. No behaviour is
+//! changed by this module.
+
+pub use crate::auth::{JwtClaims, Privileges, pattern_matches};
+pub use crate::persistence::unlock_persistence;
+pub use crate::store::{PersistedStore, StoreNode};
+pub use crate::worterbuch::{PStateAggregator, Worterbuch};
+
+use crate::Config;
+
+/// Flush a directly constructed core with the JSON persistence backend.
+pub async fn json_flush(worterbuch: &mut Worterbuch, config: &Config) -> Result<(), String> {
+    crate::persistence::verif_json_synchronous(worterbuch, config)
+        .await
+        .map_err(|e| e.to_string())
+}
+
+/// Run the JSON load chain (v3 -> v2 -> v1) on the data directory of `config`.
+pub async fn json_load(config: &Config) -> Result<Worterbuch, String> {
+    crate::persistence::verif_json_load(config)
+        .await
+        .map_err(|e| e.to_string())
+}
+
+/// Apply registrations the way the shutdown sequence does.
+pub async fn apply_all_grave_goods_and_last_wills(worterbuch: &mut Worterbuch) {
+    worterbuch.apply_all_grave_goods_and_last_wills().await
+}
